@@ -18,13 +18,13 @@ same error kinds, and for every log call the same ordered list of receiving hand
 evaluation count. -/
 theorem dispatch_refines_spec (orc : Oracle) (ops : List Op) :
     run orc Core.init ops = runSpec orc SState.init ops :=
-  run_sim orc ops sim_init
+  run_sim orc ops sim_init idInv_init
 
 /-- the invariant the refinement rests on (I1 `min_level` = min of thresholds, I2 rule list, I3 cache
 entries = fresh scan, I4 level lookup cache) holds after every history -/
 theorem invariant_after_every_history (orc : Oracle) (ops : List Op) :
     Sim (final orc Core.init ops) (finalS orc SState.init ops) :=
-  final_sim orc ops sim_init
+  final_sim orc ops sim_init idInv_init
 
 /-- (I1) after every history `core.min_level` is the minimum of the registered thresholds (`inf` when
 none), hence the short-circuit `level_no < min_level` skips exactly when no handler admits the level -/
@@ -32,7 +32,7 @@ theorem min_level_is_min_threshold (orc : Oracle) (ops : List Op) (no : Int) :
     let c := final orc Core.init ops
     c.minLevel = minOf (c.handlers.map (·.2.threshold)) ∧
     (belowMin no c.minLevel = true ↔ ∀ h ∈ c.handlers, no < h.2.threshold) := by
-  have h := (final_sim orc ops sim_init).minLevel
+  have h := (final_sim orc ops sim_init idInv_init).minLevel
   refine ⟨h, ?_⟩
   rw [h, belowMin_minOf]
   simp only [Bool.not_eq_true', List.any_eq_false, List.mem_map, decide_eq_true_eq]
@@ -50,7 +50,7 @@ theorem cache_agrees_with_fresh_scan (orc : Oracle) (ops : List Op) :
     let c := final orc Core.init ops
     ∀ e ∈ c.enabled, e.2 = scan c e.1 := by
   intro c e he
-  have hs := final_sim orc ops sim_init
+  have hs := final_sim orc ops sim_init idInv_init
   rw [hs.cache e he]
   rcases e with ⟨M, st⟩
   cases M with
@@ -153,7 +153,7 @@ theorem lazy_at_most_once_and_only_if_admitted (orc : Oracle) (ops : List Op) (l
       k ≤ 1 ∧ (k ≠ 0 → lazy = true ∧ enabledS s.acts M = true ∧
         ∃ no, levelNoS s.levels lv = .ok no ∧ ∃ h ∈ s.regs, h.2.threshold ≤ no) := by
   intro c s h
-  have hs : Sim c s := final_sim orc ops sim_init
+  have hs : Sim c s := final_sim orc ops sim_init idInv_init
   rw [(log_sim orc hs lv M lazy).1] at h
   unfold sLog at h
   split at h
@@ -174,6 +174,67 @@ theorem lazy_at_most_once_and_only_if_admitted (orc : Oracle) (ops : List Op) (l
           obtain ⟨x, hx, ht⟩ := hc.2
           exact ⟨x, hx, ht⟩
       · simp only [Out.delivered.injEq] at h; omega
+
+/-- a sink whose `stop()` raises: `remove(id)` reports the error, but the handler IS unregistered and
+`min_level` is the minimum over the remaining handlers (the update happens before `stop()`), in any state -/
+theorem remove_unregisters_even_if_stop_raises (c : Core) (id : Int) (e : Err)
+    (h : (remove c id).2 = .err e) (he : e ≠ .valueError) :
+    e = .osError ∧ (∀ x ∈ (remove c id).1.handlers, x.1 ≠ id.toNat) ∧
+    (remove c id).1.minLevel = minOf ((remove c id).1.handlers.map (·.2.threshold)) := by
+  unfold remove at h ⊢
+  by_cases hid : 0 ≤ id
+  · simp only [hid, if_true] at h ⊢
+    cases hf : c.handlers.find? (fun h => h.1 == id.toNat) with
+    | none => rw [hf] at h; simp only [Out.err.injEq] at h; exact absurd h.symm he
+    | some hd =>
+      rw [hf] at h
+      simp only at h ⊢
+      unfold stopOut at h
+      split at h
+      · simp only [Out.err.injEq] at h
+        refine ⟨h.symm, ?_, rfl⟩
+        intro x hx
+        simp only [removeOne, List.mem_filter, bne_iff_ne, ne_eq] at hx
+        exact hx.2
+      · cases h
+  · simp only [hid, if_false, Out.err.injEq] at h; exact absurd h.symm he
+
+/-- `remove()` with failing sinks: handlers go in registration order up to and including the first whose
+`stop()` raises; the call succeeds iff no `stop()` raises, and then nothing stays registered -/
+theorem remove_all_semantics (l : List (Nat × Handler)) :
+    (removeAllS l).1 <:+ l ∧ ((removeAllS l).2 = .ok ↔ ∀ h ∈ l, h.2.stopFails = false) ∧
+    ((removeAllS l).2 = .ok → (removeAllS l).1 = []) := by
+  induction l with
+  | nil => exact ⟨List.suffix_refl _, by simp [removeAllS], fun _ => rfl⟩
+  | cons h t ih =>
+    unfold removeAllS
+    by_cases hf : h.2.stopFails = true
+    · simp only [hf, if_true]
+      refine ⟨List.suffix_cons _ _, ?_, ?_⟩
+      · constructor
+        · intro hh; cases hh
+        · intro hh; have := hh h List.mem_cons_self; rw [hf] at this; cases this
+      · intro hh; cases hh
+    · have hf' : h.2.stopFails = false := by simpa using hf
+      simp only [hf', Bool.false_eq_true, if_false]
+      refine ⟨ih.1.trans (List.suffix_cons _ _), ?_, ih.2.2⟩
+      rw [ih.2.1]
+      simp [hf']
+
+/-- **Refuting witness for the shape "recompute `min_level` after `handler.stop()`"** (for instance once
+after the loop of `remove`): two handlers with thresholds 10 and 40, the first with a sink whose `stop()`
+raises; `remove(0)` raises, only the threshold-40 handler remains – and a lazy call at level 20 still
+evaluates its argument although no registered handler admits it.  With the real `remove` it does not. -/
+theorem late_min_level_update_refuted :
+    let orc : Oracle := fun _ _ _ => true
+    let c0 := final orc Core.init [.add ⟨.int 10, .none, true⟩, .add ⟨.int 40, .none, false⟩]
+    let bad := (removeLate c0 0).1
+    let good := (remove c0 0).1
+    (removeLate c0 0).2 = .err .osError ∧ (remove c0 0).2 = .err .osError ∧
+    bad.handlers.map (·.1) = [1] ∧ good.handlers.map (·.1) = [1] ∧
+    (log orc bad (.int 20) (some "a".toList) true).2 = .delivered [] 1 ∧
+    (log orc good (.int 20) (some "a".toList) true).2 = .delivered [] 0 := by
+  decide
 
 /-- `filter="p"` (`p ≠ ""`): the handler accepts the record iff its module is `p` or inside package `p`
 (`a.b` does not admit `a.bc`; `None` is never accepted) -/
@@ -232,7 +293,7 @@ different deliveries -/
 example :
     let a := "a".toList; let ab := "a.b".toList; let info := LevelArg.name "INFO".toList
     run (fun _ _ _ => true) Core.init
-      [.add ⟨.int 20, .str a⟩, .add ⟨info, .none⟩, .log info (some ab) true, .activate (some a) false,
+      [.add ⟨.int 20, .str a, false⟩, .add ⟨info, .none, false⟩, .log info (some ab) true, .activate (some a) false,
        .log info (some ab) true, .activate (some ab) true, .log (.int 30) (some ab) false, .remove 0,
        .log info (some ab) true, .log (.int 19) (some ab) true]
     = [.id 0, .id 1, .delivered [0, 1] 1, .ok, .delivered [] 0, .ok, .delivered [0, 1] 0, .ok,
@@ -253,6 +314,17 @@ example :
   · have hp : (k' ++ ['.']) <+: "a.bc".toList := ⟨t, by simp [ht]⟩
     have := dot_prefix_le_trunc hp
     exact this
+
+/-- failing `stop()` through the whole machine: remove(0) raises yet unregisters; remove() stops at the
+first failing sink and leaves the later handler registered -/
+example :
+    run (fun _ _ _ => true) Core.init
+      [.add ⟨.int 10, .none, true⟩, .add ⟨.int 40, .none, false⟩, .remove 0,
+       .log (.int 20) (some "a".toList) true, .log (.int 40) (some "a".toList) true,
+       .add ⟨.int 0, .none, true⟩, .add ⟨.int 5, .none, false⟩, .removeAll,
+       .log (.int 5) (some "a".toList) true, .removeAll, .log (.int 50) none true]
+    = [.id 0, .id 1, .err .osError, .delivered [] 0, .delivered [1] 1, .id 2, .id 3, .err .osError,
+       .delivered [3] 1, .ok, .delivered [] 0] := by decide
 
 example : Sim Core.init SState.init := sim_init
 
